@@ -72,6 +72,9 @@ def bool_facts(du, v, truth, out, depth=0):
     if k == "binop":
         op, a, b = v[1], strip_casts(v[2]), strip_casts(v[3])
         if op in ("Eq", "Ne", "Lt", "Le", "Gt", "Ge"):
+            # ordering facts relate the compared values themselves: only value-preserving casts may be looked through
+            from .ints import strip_widening
+            oa, ob = strip_widening(du.fn, v[2]), strip_widening(du.fn, v[3])
             la, lb = len_of(du, a), len_of(du, b)
             ca, cb = const_int(a), const_int(b)
             if la is not None and cb is not None:
@@ -85,17 +88,17 @@ def bool_facts(du, v, truth, out, depth=0):
             # ordering facts a <= b / a < b for checked subtraction
             rel = None
             if op == "Le":
-                rel = ("le", a, b) if truth else ("lt", b, a)
+                rel = ("le", oa, ob) if truth else ("lt", ob, oa)
             elif op == "Lt":
-                rel = ("lt", a, b) if truth else ("le", b, a)
+                rel = ("lt", oa, ob) if truth else ("le", ob, oa)
             elif op == "Ge":
-                rel = ("le", b, a) if truth else ("lt", a, b)
+                rel = ("le", ob, oa) if truth else ("lt", oa, ob)
             elif op == "Gt":
-                rel = ("lt", b, a) if truth else ("le", a, b)
+                rel = ("lt", ob, oa) if truth else ("le", oa, ob)
             elif op == "Eq" and truth:
-                out.append(("le", a, b)); out.append(("le", b, a))
+                out.append(("le", oa, ob)); out.append(("le", ob, oa))
             elif op == "Ne" and not truth:
-                out.append(("le", a, b)); out.append(("le", b, a))
+                out.append(("le", oa, ob)); out.append(("le", ob, oa))
             if rel:
                 out.append(rel)
         return
@@ -267,7 +270,7 @@ class Guards:
                 out.append((bid, idx, kind))
         return out
 
-    def holds_at(self, pred, block, place_for_kill=None):
+    def holds_at(self, pred, block, place_for_kill=None, ignore_write=None):
         """pred(fact) -> bool selects the establishing facts. True iff the union of edges carrying such a fact dominates `block`
         and no write to `place_for_kill` can reach `block` without re-crossing one of them."""
         edges = [e for e, f in self.facts() if pred(f)]
@@ -279,6 +282,8 @@ class Guards:
         if place_for_kill is not None:
             reach_wo = None
             for kb, kidx, kind in self._killers(place_for_kill):
+                if ignore_write is not None and (kb, kidx) == ignore_write:
+                    continue      # the question is asked about the state just before this very assignment
                 # the initial definition before the guards cannot reach the use without crossing a guard edge
                 if kb == block:
                     # a write in the use block precedes the terminator use
